@@ -53,6 +53,12 @@ SEEDS = {
  "C10-m4": ("select_start_nodes wraps start number num_loc+1 to the depot", "depot environment with num_starts / beam_width > num_loc"),
  "C11-m3": ("_multistart_batched_index (heatmap decoder) uses repeat_interleave", "non-autoregressive policy, num_starts > 1, batch > 1"),
  "C11-m4": ("get_log_likelihood skips the td['mask'] step flags on the full-distribution path", "user-supplied td['mask'] and log-likelihood requested with return_entropy / store_all_logp"),
+ "C09-m3": ("PDPRuinRepairEnv._step keeps a stale visited_time on the step_to_solution path", "ordinary steps, then step_to_solution(rec_best), then a masked move"),
+ "C09-m4": ("NeuOptPolicy.forward breaks out of the sub-action loop once every row of the batch has closed its move", "very small batches in which all rows close early"),
+ "C13-m3": ("PDPEnv.select_start_nodes wraps modulo P+1 (forced starts reach a delivery node)", "beam width / starts > number of pickups"),
+ "C13-m4": ("PrecomputedCache.batchify uses repeat_interleave", "SDVRP beam search, width > 1, batch >= 2"),
+ "C19-m3": ("jssp/parser.read pads the processing times in front of the operations", "files of different size in one directory, or max_ops larger than the instance"),
+ "C19-m4": ("MTVRPEnv.load_data(scale=True) normalises by the first instance's capacity", "scale=True and mixed capacity_original in one file"),
 }
 for sid in sorted(os.listdir(os.path.join(ROOT, "seeded"))):
     d = os.path.join(ROOT, "seeded", sid)
